@@ -31,8 +31,9 @@ Proof. intros a b. unfold clocks. apply flat_map_app. Qed.
 
 Lemma do_act_log : forall cfg a st st' l, do_act cfg st a = (st', l) -> execs l = [] /\ clocks l = [].
 Proof.
-  intros cfg a st st' l H. destruct a as [k t p tag h body|tag|h]; cbn [do_act] in H.
+  intros cfg a st st' l H. destruct a as [k t p tag h body|tag|h|]; cbn [do_act] in H.
   - destruct (do_sched cfg st k t p tag h body) as [s rc] eqn:E. inversion H; subst. split; reflexivity.
+  - inversion H; subst. split; reflexivity.
   - inversion H; subst. split; reflexivity.
   - inversion H; subst. split; reflexivity.
 Qed.
@@ -42,8 +43,10 @@ Proof.
   intros cfg acts. induction acts as [|a r IH]; intros st st' l H; cbn [do_acts] in H.
   - inversion H; subst. split; reflexivity.
   - destruct (do_act cfg st a) as [s1 l1] eqn:E1.
+    destruct (do_act_log _ _ _ _ _ E1) as [A1 B1].
+    destruct (has_raise l1) eqn:Hr; [inversion H; subst; split; assumption|].
     destruct (do_acts cfg s1 r) as [s2 l2] eqn:E2. inversion H; subst.
-    destruct (do_act_log _ _ _ _ _ E1) as [A1 B1]. destruct (IH _ _ _ E2) as [A2 B2].
+    destruct (IH _ _ _ E2) as [A2 B2].
     rewrite execs_app, clocks_app, A1, A2, B1, B2. split; reflexivity.
 Qed.
 
@@ -132,12 +135,19 @@ Proof.
   - destruct (pop_event (s_events st)) as [[e rest]|] eqn:Ep.
     + destruct (Z.leb_spec (e_time e) endt).
       * destruct (exec_event cfg (set_events st rest) e) as [s1 l1] eqn:E1.
+        destruct (inv_pop _ _ _ Hi Ep) as [_ [Hte _]].
+        destruct (exec_event_log _ _ _ _ _ E1) as [Hex Hcl].
+        destruct (has_raise l1) eqn:Hr.
+        { inversion H; subst. split; [|split].
+          - destruct Hex as [->|[-> [Hs [Hc _]]]]; [constructor|].
+            constructor; [|constructor]. repeat split; try assumption.
+          - eapply Forall_impl; [|exact Hcl]. cbn. intros x ->. lia.
+          - rewrite <- (app_nil_r (clocks l)).
+            eapply ss_app_const; [exact Hcl|constructor|constructor]. }
         destruct (run_loop cfg n endt s1) as [[s2 l2] ok2] eqn:E2. inversion H; subst.
         pose proof (exec_event_time _ _ _ _ _ E1) as Ht.
-        destruct (inv_pop _ _ _ Hi Ep) as [_ [Hte _]].
         assert (Hi1 : inv s1) by (eapply inv_exec_event; eassumption).
         destruct (IH _ _ _ _ Hi1 E2) as [IH1 [IH2 IH3]].
-        destruct (exec_event_log _ _ _ _ _ E1) as [Hex Hcl].
         rewrite Ht in IH1, IH2.
         rewrite execs_app, clocks_app. split; [|split].
         -- apply Forall_app. split.
@@ -160,6 +170,9 @@ Proof.
   - destruct (pop_event (s_events st)) as [[e rest]|] eqn:Ep.
     + destruct (e_time e <=? endt).
       * destruct (exec_event cfg (set_events st rest) e) as [s1 l1] eqn:E1.
+        destruct (has_raise l1) eqn:Hr.
+        { inversion H; subst.
+          destruct (exec_event_In _ _ _ _ _ _ _ E1 Hin) as [-> [-> _]]. reflexivity. }
         destruct (run_loop cfg n endt s1) as [[s2 l2] ok2] eqn:E2. inversion H; subst.
         apply in_app_or in Hin. destruct Hin as [Hin|Hin].
         -- destruct (exec_event_In _ _ _ _ _ _ _ E1 Hin) as [-> [-> _]]. reflexivity.
@@ -218,6 +231,7 @@ Proof.
       destruct Hpl as [[Hstep Hbody] Hprest].
       destruct (Z.leb_spec (e_time e) endt) as [Hle|Hgt].
       * destruct (exec_event cfg (set_events st rest) e) as [s1 l1] eqn:E1.
+        destruct (has_raise l1) eqn:Hr; [inversion H|].
         destruct (run_loop cfg n endt s1) as [[s2 l2] ok2] eqn:E2. inversion H; subst.
         assert (Hi1 : inv s1) by (eapply inv_exec_event; eassumption).
         unfold exec_event in E1. rewrite Hstep, andb_false_r in E1.
